@@ -143,6 +143,9 @@ theorem dropCells_strict (s : Strict t) (hn : t.hierarchy.Nodup) : Strict t.drop
       oneParent := fun pl cl hm => by
         obtain ⟨hm', e⟩ := hlv hm
         rw [e]; exact s.oneParent pl cl hm'
+      childNe := fun pl cl hm => by
+        obtain ⟨hm', e⟩ := hlv hm
+        rw [e]; exact s.childNe pl cl hm'
       childNodup := fun pl cl hm => by
         obtain ⟨hm', e⟩ := hlv hm
         rw [e]; exact s.childNodup pl cl hm'
